@@ -714,7 +714,24 @@ class Interp:
                 if isinstance(x, ast.Name) and x.id in self.env and (isinstance(self.env[x.id], bool) or self.env[x.id] is None):
                     return ("c", self.env[x.id])
                 return None
-            a, b = flag(l), flag(r)
+            def ndim(x):
+                # len(E.shape) / E.ndim of a value of this domain: the algebra works element-wise on flat vectors, so 1
+                inner = None
+                if isinstance(x, ast.Call) and isinstance(x.func, ast.Name) and x.func.id == "len" and len(x.args) == 1 \
+                        and isinstance(x.args[0], ast.Attribute) and x.args[0].attr == "shape":
+                    inner = x.args[0].value
+                elif isinstance(x, ast.Attribute) and x.attr == "ndim":
+                    inner = x.value
+                if inner is None:
+                    return None
+                try:
+                    v = self.ev(inner)
+                except Undecided:
+                    return None
+                return ("c", 1) if isinstance(v, Rat) else None
+            a, b = flag(l) or ndim(l), flag(r) or ndim(r)
+            if a and b and isinstance(op, (ast.Lt, ast.LtE, ast.Gt, ast.GtE)) and all(isinstance(z[1], (int, float)) and not isinstance(z[1], bool) for z in (a, b)):
+                return {ast.Lt: a[1] < b[1], ast.LtE: a[1] <= b[1], ast.Gt: a[1] > b[1], ast.GtE: a[1] >= b[1]}[type(op)]
             if a and b:
                 if isinstance(op, (ast.Is, ast.Eq)):
                     return a[1] is b[1] if isinstance(op, ast.Is) else a[1] == b[1]
